@@ -19,7 +19,8 @@ def run(c):
               "restarts, crashes tearing the last put at a random/boundary offset, crashes tearing an erase after 0..4 bytes, and "
               "(15 % of the cases) byte flips / truncations; 25 % of the cases end with an enumeration of tear offsets of the final "
               "put (quick: boundaries + random, thorough and -mode=enum: every byte offset, exhaustive for that history); "
-              "-mode=big: real 50 MB files around fileRotateSize and maxChunkSize. After every op the real ids/bytes/TotalFileSize, "
+              "-mode=big: real 50 MB files around fileRotateSize and maxChunkSize. ALL GetBucket calls of a case go through ONE reused "
+              "scratch pad (as the agent's sender does), seconds with empty bodies are mixed in, and the model threads the pad (getP).  After every op the real ids/bytes/TotalFileSize, "
               "ref counts, read/write heads and a checksum of every file are compared with the Lean model. "
               "non-trivial = a restart/crash happened after an erase or a rotation (or a torn erase / size-rotation boundary); "
               "distinct by op-sequence hash")
@@ -36,6 +37,7 @@ def run(c):
     lem = ["Abs", "Inv", "Read", "Read2", "Read3", "Loop", "Drain", "Get", "Erase", "Erase2", "Erase3", "Drop", "Rotate", "NewFile",
            "Append", "Run", "GetLive", "Sizes", "Torn", "TornErase"]
     c.prove("SH.Props.C09", extra_files=["SH/Model/DiskCache.lean"] + [f"SH/Lemmas/DiskCache{x}.lean" for x in lem])
+    c.prove("SH.Lemmas.DiskCachePad")            # GetBucket's result is independent of the reused scratch pad's previous contents
     c.prove("SH.Lemmas.DiskCacheBytes")          # first-round byte-level theorems, still audited one by one
     drv = c.driver(DRIVER)
     if binary and drv:
@@ -74,7 +76,8 @@ META = {
              "bytes, readFuel always suffices), torn_tail (last put torn at ANY byte loses only that put), torn_erase (fixed reader: the "
              "4-byte magic write of an erase torn after k=0..4 bytes: k<=2 everything re-read, k=3,4 everything but that second, "
              "never another second lost; the pre-fix loss is kept as a history-level decide witness), erased_never_returned, "
-             "size_accounting (total = sum of file sizes, knownSize/waitingSize/unsent), file_removed (a file stays only while a "
+             "getP_eq_get (the bytes GetBucket returns through the caller's REUSED scratch pad do not depend on the pad's previous "
+             "contents), size_accounting (total = sum of file sizes, knownSize/waitingSize/unsent), file_removed (a file stays only while a "
              "known second or a head refers to it). Byte-level theorems of round one unchanged. The model is tied to the code by "
              "replaying every generated history op by op on a real cache directory and on the compiled model and diffing ids, "
              "bytes, sizes, ref counts and a checksum of every file; the oracle recomputes puts - erases - torn from the op log."),
